@@ -164,9 +164,10 @@ class SocketWrapper:
                 break
             if chunk_length != 0:
                 chunk = instream.read(chunk_length)
-                if len(chunk) != chunk_length:
-                    # premature end of chunk bytes
-                    partial = length_bytes + chunk
+                term = instream.readline()
+                if len(chunk) != chunk_length or term[-2:] != b"\r\n":
+                    # premature end of chunk bytes or of chunk terminator
+                    partial = length_bytes + chunk + term
                     break
                 try:
                     if self._encoding & ENCODE_GZIP:
@@ -180,7 +181,6 @@ class SocketWrapper:
                     # parser will discard data
                 chunks += chunk
 
-            instream.readline()
             if chunk_length == 0:
                 # final chunk
                 break
